@@ -68,6 +68,32 @@ def g_c17(rng, tier):
         d2 = d + 1 if (d == 1 or rng.random() < 0.5) else d - 1
         bad = (rng.choice(["pred", "pexp"]), gen.gen_ctx(rng, rng.randint(1, 3), d2))
         c["ops"] = c["ops"][:i + 1] + [bad] + c["ops"][i + 1:]
+    if rng.random() < (0.6 if c["lp"][0] == "thompson" and c["lp"][1] is None else 0.3):
+        # one training call with documented invalid arguments (lengths that differ, contexts missing or superfluous, a non-binary reward for
+        # Thompson Sampling without binarizer): the model's facade validation (fit_args_ok) and the code must reject it alike
+        contextual = c.get("np") is not None or c["lp"][0] in gen.LIN_KINDS
+        tr = [o for o in c["ops"] if o[0] in ("fit", "pfit")]
+        d = next((len(o[3][0]) for o in tr if o[3]), 2)
+        arms = list(c["arms"])
+        n = rng.randint(2, 5)
+        ds = [rng.choice(arms) for _ in range(n)]
+        ts = c["lp"][0] == "thompson"
+        rs = [float(rng.randint(0, 1)) for _ in range(n)]
+        cx = gen.gen_ctx(rng, n, d) if contextual else None
+        kinds = ["len", "presence"] + (["ctxrows"] if contextual else []) + (["nonbinary"] if ts and c["lp"][1] is None else [])
+        k = rng.choice(kinds)
+        if "nonbinary" in kinds and rng.random() < 0.6:
+            k = "nonbinary"
+        if k == "len":
+            rs = rs + [1.0] if rng.random() < 0.5 else rs[:-1]
+        elif k == "presence":
+            cx = None if contextual else gen.gen_ctx(rng, n, 2)
+        elif k == "ctxrows":
+            cx = cx[:-1] if rng.random() < 0.5 else cx + [list(cx[0])]
+        else:
+            rs[rng.randrange(n)] = rng.choice([2.0, 2.0, 0.5, -1.0])
+        pos = rng.randint(0, len(c["ops"]))
+        c["ops"] = c["ops"][:pos] + [(rng.choice(["fit", "pfit"]), ds, rs, cx)] + c["ops"][pos:]
     return c
 
 def g_c04(rng, tier):
